@@ -1,4 +1,5 @@
 import FitModel.Validator
+import FitModel.ValidatorArith
 import Driver.MsgCodec
 import Driver.Value
 -- @family validate Drv.hValidate
@@ -15,8 +16,10 @@ private def errName : Err → String
   | .noFields => "err:no-fields" | .typeMismatch => "err:type" | .invalidUtf8 => "err:utf8" | .exceed => "err:exceed"
   | .missingDdi => "err:ddi" | .missingFd => "err:fd" | .protocolViolation => "err:protocol"
 
-/-- `fac:<s|c>/<table|->` → the factory function (absent pairs are unknown fields) -/
+/-- `fac:<s|c>/<table|->` → the factory function (absent pairs are unknown fields); `fac:s/=`: the standard factory
+resolved INSIDE the model through the regenerated table (`Fit.ValidatorA.stdFactory`), nothing carried in the line -/
 def parseFac (s : String) : Option (Nat → Nat → FacEntry) :=
+  if s == "s/=" then some Fit.ValidatorA.stdFactory else
   if !(s.startsWith "s/" || s.startsWith "c/") then none else
   let body := (s.drop 2).toString
   if body == "-" then some (fun _ _ => {}) else do
@@ -41,8 +44,10 @@ def parseFac (s : String) : Option (Nat → Nat → FacEntry) :=
 /-- a value the real code can never return here, used when the line lacks an oracle entry (shows up as a disagreement) -/
 def needOracle : Value := .string ("need-oracle".toList.map (·.toNat))
 
-/-- `dv:<table|->` → the discard oracle (results of the real scaleoffset.DiscardValue on float64-typed values) -/
+/-- `dv:<table|->` → the discard oracle (results of the real scaleoffset.DiscardValue on float64-typed values);
+`dv:=`: the arithmetic INSIDE the model (`Fit.ValidatorA.D` = `Fit.ScaleOffset.discardValue` over the binary64 model of C12) -/
 def parseDv (s : String) : Option Discard :=
+  if s == "=" then some Fit.ValidatorA.D else
   if s == "-" then some (fun _ _ _ _ => needOracle) else do
     let entries ← (s.splitOn ",").mapM fun e =>
       match e.splitOn ">" with
